@@ -143,11 +143,11 @@ def run(ctx, chk):
             late2 = O.never_after(gb, mkr, loads)
             chk.oblige("B09.4i (callee) %s: no shared-length load after the reader snapshot" % g, not late2,
                        key="B09.4i|%s" % g, msg="length must be loaded before the reader snapshot")
-    if n_paths < 8:
-        raise AnchorMissing("expected >= 8 read-only bodies that create a reader, found %d" % n_paths)
+    if n_paths < 4:
+        raise AnchorMissing("expected >= 4 read-only bodies that create a reader, found %d" % n_paths)
     ctors = [bid for bid in P.bodies if re.search(r"::(new_from_parts|from_region)$", bid) and "sources::" in bid]
-    if len(ctors) < 5:
-        raise AnchorMissing("expected >= 5 reader constructors (new_from_parts/from_region), found %d" % len(ctors))
+    if len(ctors) < 3:
+        raise AnchorMissing("expected >= 3 reader constructors (new_from_parts/from_region), found %d" % len(ctors))
     for c in sorted(ctors):
         r = O.reach(c)
         chk.oblige("B09.4ii %s takes the length as a parameter (does not load it)" % c, GET not in r,
@@ -193,8 +193,8 @@ def run(ctx, chk):
                        how is not None, key="B09.7|%s|pages-not-pinned" % _short(bid),
                        msg="a reader decodes bytes located through a page entry after the pages lock was released: the "
                            "writer may have rewritten them")
-    if n7 < 3:
-        raise AnchorMissing("expected >= 3 page-located reads in vecdb read paths, found %d" % n7)
+    if n7 < 2:
+        raise AnchorMissing("expected >= 2 page-located reads in vecdb read paths, found %d" % n7)
     # B09.8 "no read blocks forever": lock-order findings of engine A that are not already recorded under C11
     import json as _json
     import os as _os
